@@ -223,9 +223,21 @@ def run_check(tier: str, seed: int, workers: Any) -> Dict[str, Any]:
     tiny = [((('S', (), 'wait'), ('S', (), 'ret')), None), ((('Y1', (), 'ret'),), None)]
     deep = {'K': 4, 'J': 0} if tier == 'quick' else {'K': 5, 'J': 0}
     part3 = runner.run_explorer(
-        factory, (), tiny, deep, seed, workers,
-        rule=f'the two smallest programs with <= {deep["K"]} requests', assumptions=[], bounds=deep, describe=describe_unit)
+        deep_factory, (), tiny, deep, seed, workers,
+        rule=f'the two smallest programs with <= {deep["K"]} requests, a pause with a message among them', assumptions=[],
+        bounds=deep, describe=describe_unit)
     return runner.merge([part1, part2, part3])
+
+
+DEEP_ALPHABET = (('pause',), ('pause', 'm'), ('play',), ('kill', 't1'), ('resume', 'v1'), ('unask',))
+
+
+def deep_cfg(unit: Any) -> ctl.Config:
+    return ctl.Config(alphabet=DEEP_ALPHABET, closing=('gates', 'play', 'resume'), resume_default=('dflt',))
+
+
+def deep_factory() -> CtlProperty:
+    return CtlProperty(ID, Oracle, deep_cfg, cls_for=cls_for)
 
 
 def run_processes(tier: str, seed: int, workers: Any) -> Dict[str, Any]:
@@ -244,4 +256,15 @@ def replay(doc: Dict[str, Any]) -> List[Dict[str, Any]]:
     from ..cli import to_tuple
     if is_wc_unit(to_tuple(doc['unit'])):
         return wc_factory().replay(doc)
-    return PROP.replay(doc)
+    # the recorded choices index the options of the alphabet they were made under: the main one or that of the deep part
+    from ..explore import Nondeterminism
+    found: List[Dict[str, Any]] = []
+    for prop in (PROP, deep_factory()):
+        try:
+            got = prop.replay(doc)
+        except Nondeterminism:
+            continue
+        if any(v.get('clause') == doc.get('clause') for v in got):
+            return got
+        found = found or got
+    return found
